@@ -5,10 +5,11 @@ unless that would leave a harness *role* without any quick instance."""
 import glob, json, sys
 from pathlib import Path
 V = Path(__file__).resolve().parent
-THRESH = float(sys.argv[1]) if len(sys.argv) > 1 else 120.0
+THRESH = float(sys.argv[1]) if len(sys.argv) > 1 and not sys.argv[1].startswith("-") else 120.0
 p = V / "tuning.json"
-t = json.loads(p.read_text()) if p.exists() else {"slow": {}}
-files = glob.glob(str(V / "evidence" / "*.json")) + glob.glob(str(V / ".work" / "measure" / "*" / "*.json"))
+fresh = "--fresh" in sys.argv   # start from nothing and use only the measurement run (.work/measure)
+t = json.loads(p.read_text()) if p.exists() and not fresh else {"slow": {}}
+files = ([] if fresh else glob.glob(str(V / "evidence" / "*.json"))) + glob.glob(str(V / ".work" / "measure" / "*" / "*.json"))
 for f in files:
     d = json.load(open(f))
     for h in d["coverage"].get("harnesses", []):
